@@ -181,10 +181,10 @@ class C18(VectorEngine):
                    "a named argument given both explicitly and through a map splat, map-splat keys with underscores and functions without @return are outside the property (not generated)",
                    "closure programs only declare fresh variables or shadow globals, so that the assignment defects recorded under C16 do not interfere"]
     mc_runs = {
-        "quick": [("MC_Bind", "MC_Bind_C18_a.cfg", {"workers": 6}), ("MC_Bind", "MC_Bind_C18_b.cfg", {"workers": 6}),
-                  ("MC_Bind", "MC_Bind_C18_ret.cfg", {"workers": 2}), ("MC_Scope", "MC_Scope_C18_a.cfg", {"workers": 6})],
-        "thorough": [("MC_Bind", "MC_Bind_C18_a.cfg", {"workers": 6}), ("MC_Bind", "MC_Bind_C18_t.cfg", {"workers": 8, "timeout": 1800}),
-                     ("MC_Bind", "MC_Bind_C18_rett.cfg", {"workers": 4}), ("MC_Scope", "MC_Scope_C18_t.cfg", {"workers": 8, "timeout": 1800})],
+        "quick": [("MC_Bind", "MC_Bind_C18_a.cfg", {"workers": 4}), ("MC_Bind", "MC_Bind_C18_b.cfg", {"workers": 4}),
+                  ("MC_Bind", "MC_Bind_C18_ret.cfg", {"workers": 2}), ("MC_Scope", "MC_Scope_C18_a.cfg", {"workers": 4})],
+        "thorough": [("MC_Bind", "MC_Bind_C18_a.cfg", {"workers": 4}), ("MC_Bind", "MC_Bind_C18_t.cfg", {"workers": 4, "timeout": 1800}),
+                     ("MC_Bind", "MC_Bind_C18_rett.cfg", {"workers": 4}), ("MC_Scope", "MC_Scope_C18_t.cfg", {"workers": 4, "timeout": 1800})],
     }
     random_n = {"quick": 1200, "thorough": 12000}
 
